@@ -24,6 +24,11 @@ func corpusCached() []Case {
 		reader act
 		writer act
 		rule   *rule
+		// writerHeld: the mirror image - the WRITER is stopped at the rule's backend call (op "pre:X": just before the
+		// backend sees it; op "X": just after it returned, before the invalidation), the reader's whole request runs
+		// in between, then the writer finishes
+		writerHeld bool
+		dirs       []string
 	}
 	scens := []scen{
 		{name: "lookup-vs-remove (attribute cache, positive entry)", cfg: cfg29{AttrTTL: long, NegTTL: long, DirTTL: long},
@@ -42,10 +47,58 @@ func corpusCached() []Case {
 		// the path is NOT cached when the writer invalidates it (CREATE UNCHECKED with a size over an existing file
 		// truncates by path, without reading attributes through the cache first): the reader's fill must still be refused
 		{name: "lookup-vs-create-truncate (attribute cache, nothing cached for the path at invalidation time)",
-			cfg:   cfg29{AttrTTL: long, NegTTL: long, DirTTL: long},
-			files: map[string]string{"/f0": "hello"},
+			cfg:    cfg29{AttrTTL: long, NegTTL: long, DirTTL: long},
+			files:  map[string]string{"/f0": "hello"},
 			reader: act{kind: "LOOKUP", name: "f0"}, writer: act{kind: "CREATE", name: "f0", how: 0, size: u64p(0)},
 			rule: &rule{op: "Lstat", path: "/f0", nth: 1}},
+		// ---- the writer held at its backend call while a reader's whole request runs ----
+		{name: "remove held before the backend call, lookup in between", cfg: cfg29{AttrTTL: long, NegTTL: long, DirTTL: long},
+			files: map[string]string{"/f0": "hello"}, reader: act{kind: "LOOKUP", name: "f0"}, writer: act{kind: "REMOVE", name: "f0"},
+			rule: &rule{op: "pre:Remove", path: "/f0", nth: 1}, writerHeld: true},
+		{name: "remove held after the backend call, lookup in between (negative caching on)",
+			cfg:   cfg29{AttrTTL: long, NegTTL: long, DirTTL: long, NegOn: true},
+			files: map[string]string{"/f0": "hello"}, warm: []act{{kind: "LOOKUP", name: "f0"}},
+			reader: act{kind: "LOOKUP", name: "f0"}, writer: act{kind: "REMOVE", name: "f0"},
+			rule: &rule{op: "Remove", path: "/f0", nth: 1}, writerHeld: true},
+		{name: "rmdir held before the backend call, lookup in between", cfg: cfg29{AttrTTL: long, NegTTL: long, DirTTL: long, DirOn: true},
+			files: map[string]string{"/f0": "hello"}, dirs: []string{"/d0"},
+			reader: act{kind: "LOOKUP", name: "d0"}, writer: act{kind: "RMDIR", name: "d0"},
+			rule: &rule{op: "pre:Remove", path: "/d0", nth: 1}, writerHeld: true},
+		{name: "rename held before the backend call, lookup of the source name in between",
+			cfg:   cfg29{AttrTTL: long, NegTTL: long, DirTTL: long, NegOn: true},
+			files: map[string]string{"/f0": "hello"}, reader: act{kind: "LOOKUP", name: "f0"},
+			writer: act{kind: "RENAME", name: "f0", name2: "f1"},
+			rule:   &rule{op: "pre:Rename", path: "/f0", nth: 1}, writerHeld: true},
+		{name: "rename held before the backend call, lookup of the target name in between (negative caching on)",
+			cfg:   cfg29{AttrTTL: long, NegTTL: long, DirTTL: long, NegOn: true},
+			files: map[string]string{"/f0": "hello"}, reader: act{kind: "LOOKUP", name: "f1"},
+			writer: act{kind: "RENAME", name: "f0", name2: "f1"},
+			rule:   &rule{op: "pre:Rename", path: "/f0", nth: 1}, writerHeld: true},
+		{name: "create held before the backend call, lookup in between (negative caching on)",
+			cfg:   cfg29{AttrTTL: long, NegTTL: long, DirTTL: long, NegOn: true},
+			files: map[string]string{"/f0": "hello"}, reader: act{kind: "LOOKUP", name: "f2"},
+			writer: act{kind: "CREATE", name: "f2", how: 1},
+			rule:   &rule{op: "pre:Create", path: "/f2", nth: 1}, writerHeld: true},
+		{name: "create held after the backend call, lookup in between", cfg: cfg29{AttrTTL: long, NegTTL: long, DirTTL: long},
+			files: map[string]string{"/f0": "hello"}, reader: act{kind: "LOOKUP", name: "f2"},
+			writer: act{kind: "CREATE", name: "f2", how: 1, mode: u32p(0600)},
+			rule:   &rule{op: "OpenFile", path: "/f2", nth: 1}, writerHeld: true},
+		{name: "remove held before the backend call, readdir in between (directory cache)",
+			cfg:   cfg29{AttrTTL: long, NegTTL: long, DirTTL: long, DirOn: true},
+			files: map[string]string{"/f0": "hello", "/f1": "x"}, reader: act{kind: "READDIR"}, writer: act{kind: "REMOVE", name: "f0"},
+			rule: &rule{op: "pre:Remove", path: "/f0", nth: 1}, writerHeld: true},
+		{name: "create held before the backend call, readdirplus in between (directory cache)",
+			cfg:   cfg29{AttrTTL: long, NegTTL: long, DirTTL: long, DirOn: true, NegOn: true},
+			files: map[string]string{"/f0": "hello"}, reader: act{kind: "READDIRPLUS"}, writer: act{kind: "CREATE", name: "f2", how: 1},
+			rule: &rule{op: "pre:Create", path: "/f2", nth: 1}, writerHeld: true},
+		{name: "rename held before the backend call, readdir in between (directory cache)",
+			cfg:   cfg29{AttrTTL: long, NegTTL: long, DirTTL: long, DirOn: true},
+			files: map[string]string{"/f0": "hello"}, reader: act{kind: "READDIR"}, writer: act{kind: "RENAME", name: "f0", name2: "f1"},
+			rule: &rule{op: "pre:Rename", path: "/f0", nth: 1}, writerHeld: true},
+		{name: "rename held after the backend call, readdirplus in between (directory cache)",
+			cfg:   cfg29{AttrTTL: long, NegTTL: long, DirTTL: long, DirOn: true},
+			files: map[string]string{"/f0": "hello"}, reader: act{kind: "READDIRPLUS"}, writer: act{kind: "RENAME", name: "f0", name2: "f1"},
+			rule: &rule{op: "Rename", path: "/f0", nth: 1}, writerHeld: true},
 		{name: "readdirplus-vs-rename (attribute cache, entry of a listing)", cfg: cfg29{AttrTTL: long, NegTTL: long, DirTTL: long},
 			files: map[string]string{"/f0": "hello"}, reader: act{kind: "READDIRPLUS"}, writer: act{kind: "RENAME", name: "f0", name2: "f1"},
 			rule: &rule{op: "Lstat", path: "/f0", nth: 1}},
@@ -53,11 +106,19 @@ func corpusCached() []Case {
 	var out []Case
 	for i, sc := range scens {
 		sc := sc
-		sc.rule.signal, sc.rule.wait = "reader-has-read", "writer-done"
+		if sc.writerHeld {
+			sc.rule.signal, sc.rule.wait = "writer-at-op", "reader-done"
+			sc.reader.waitBefore, sc.reader.signalAfter = "writer-at-op", "reader-done"
+		} else {
+			sc.rule.signal, sc.rule.wait = "reader-has-read", "writer-done"
+			sc.writer.waitBefore, sc.writer.signalAfter = "reader-has-read", "writer-done"
+		}
 		script := newScript(sc.rule)
-		sc.writer.waitBefore, sc.writer.signalAfter = "reader-has-read", "writer-done"
 		populate := func(fs *specfs.FS) {
 			fs.Mkdir("/sh", 0755)
+			for _, d := range sc.dirs {
+				fs.Mkdir(d, 0755)
+			}
 			for p, data := range sc.files {
 				h, err := fs.Create(p)
 				if err != nil {
